@@ -215,6 +215,8 @@ BulkFailed(e) ==
   \cup Chk("C01.close_complete", e.ret = 0)
   \cup Chk("C01.close_std", e.ret = 0)
   \cup Chk("C16.first_close_valid", e.ret = 0)
+  \cup Chk("C06.trailer", kind # "flate" => e.ret = 0)
+  \cup Chk("C06.readback", kind # "flate" => e.ret = 0)
 
 (* Constructors that mirror the standard library accept and reject the same *)
 (* levels.                                                                  *)
